@@ -3,7 +3,9 @@
 `run(fn_node, env, hooks)` interprets the body of a function over an environment of abstract
 values.  Supported: Assign (names / tuples), If, Return, Import*, Expr(docstring); expressions:
 Name, Constant, Tuple, List, BinOp(+ on lists), IfExp, BoolOp, Not, Compare(is / is not / == / in),
-Attribute and Call through `hooks` (src-text keyed callbacks).  A nondeterministic choice is
+Attribute and Call through `hooks` (src-text keyed callbacks) or on abstract objects (`AObj`: attribute table, methods
+are callables; used for values that are rebound, `t = t.bound`), subscript stores into dict values, expression
+statements that call a hooked function (the hook records the call).  A nondeterministic choice is
 represented by the hook returning `Choice(frozenset(...))`; the result of the run is the set of
 possible return values.  Anything else raises AnalysisError (exit 2), never a guess.
 """
@@ -19,6 +21,17 @@ class Choice:
 
     def __repr__(self):
         return "Choice(%s)" % sorted(map(str, self.options))
+
+
+class AObj:
+    """abstract object: `attrs` maps attribute names to values, method names to callables(*args)"""
+
+    def __init__(self, name, **attrs):
+        self.name = name
+        self.attrs = attrs
+
+    def __repr__(self):
+        return "<%s>" % self.name
 
 
 class _Return(Exception):
@@ -58,6 +71,8 @@ def _block(stmts, env, hooks):
             v = _eval(s.value.args[0], env, hooks)
             cur = env[s.value.func.value.id]
             env[s.value.func.value.id] = cur + ([v] if s.value.func.attr == "append" else list(v))
+        elif isinstance(s, ast.Expr) and isinstance(s.value, ast.Call):
+            _eval(s.value, env, hooks)      # hooked call evaluated for its recorded effect
         elif isinstance(s, ast.If):
             c = _eval(s.test, env, hooks)
             _block(s.body if _truth(c, s.test) else s.orelse, env, hooks)
@@ -75,6 +90,9 @@ def _bind(t, v, env):
             raise AnalysisError("absint: cannot unpack %r into %s" % (v, src(t)))
         for x, y in zip(t.elts, v):
             _bind(x, y, env)
+    elif isinstance(t, ast.Subscript) and isinstance(t.value, ast.Name) and isinstance(env.get(t.value.id), dict):
+        k = _eval(t.slice, env, {})
+        env[t.value.id][k if not isinstance(k, AObj) else k.name] = v
     else:
         raise AnalysisError("absint: unsupported target %s" % src(t))
 
@@ -141,6 +159,26 @@ def _eval(e, env, hooks):
         if key in hooks:
             h = hooks[key]
             return h(env) if callable(h) else h
+        # abstract objects
+        if isinstance(e, ast.Attribute):
+            try:
+                base = _eval(e.value, env, hooks)
+            except AnalysisError:
+                base = None
+            if isinstance(base, AObj):
+                if e.attr not in base.attrs:
+                    raise AnalysisError("absint: abstract object %r has no attribute %s" % (base, e.attr))
+                return base.attrs[e.attr]
+        if isinstance(e, ast.Call) and isinstance(e.func, ast.Attribute):
+            try:
+                base = _eval(e.func.value, env, hooks)
+            except AnalysisError:
+                base = None
+            if isinstance(base, AObj):
+                m = base.attrs.get(e.func.attr)
+                if not callable(m):
+                    raise AnalysisError("absint: abstract object %r has no method %s" % (base, e.func.attr))
+                return m(*[_eval(a, env, hooks) for a in e.args])
         if isinstance(e, ast.Call):
             fkey = src(e.func) + "()"
             if fkey in hooks:
